@@ -22,7 +22,10 @@ Strs == {"", "k", "a b", "x{y}z"}
 
 \* ---- floats: m * 10^e
 Floats == {[m |-> 0, e |-> 0], [m |-> 1, e |-> 0], [m |-> -1, e |-> 0], [m |-> 15, e |-> -1], [m |-> -25, e |-> -2],
-           [m |-> 1, e |-> 21], [m |-> 12345675, e |-> -2], [m |-> 5, e |-> -1], [m |-> 3, e |-> 3], [m |-> 1, e |-> -10]}
+           [m |-> 1, e |-> 21], [m |-> 12345675, e |-> -2], [m |-> 5, e |-> -1], [m |-> 3, e |-> 3], [m |-> 1, e |-> -10],
+           \* exactly representable as float32 (multiples of 128 below 2^31, 2^24 + 2): their shortest float32 text is shorter
+           \* than their float64 text - the argument is a float64 and must be written as one
+           [m |-> 1700000128, e |-> 0], [m |-> -2147483520, e |-> 0], [m |-> 16777218, e |-> 0]}
 Digits(n) == ToString(n)                       \* n >= 0
 RECURSIVE Zeros(_)
 Zeros(n) == IF n <= 0 THEN "" ELSE "0" \o Zeros(n - 1)
@@ -94,6 +97,11 @@ TypedCases ==
   \cup {Case("HINCRBYFLOAT", <<"k", "fld">>, <<>>, f, NoD, NoT, <<>>, <<"HINCRBYFLOAT", "k", "fld", Dec(f)>>) : f \in Floats}
   \cup {Case("ZADD", <<"z", mem>>, <<>>, f, NoD, NoT, <<>>, <<"ZADD", "z", Dec(f), mem>>) : mem \in Strs, f \in Floats}
   \cup {Case("ZADD2", <<"z", "m1", "m2">>, <<>>, f, NoD, NoT, <<>>, <<"ZADD", "z", Dec(f), "m1", Dec([m |-> 15, e |-> -1]), "m2">>) : f \in Floats}
+  \* the hand-written iterator variants of internal/cmds/iter.go build the same argv as the plain variants
+  \cup {Case("ZADD_ITER", <<"z", "m1", "m2">>, <<>>, f, NoD, NoT, <<>>, <<"ZADD", "z", Dec(f), "m1", Dec([m |-> 15, e |-> -1]), "m2">>) : f \in Floats}
+  \cup {Case("HSET_ITER", <<"h", f1, v1>>, <<>>, NoF, NoD, NoT, <<>>, <<"HSET", "h", f1, v1>>) : f1 \in Strs, v1 \in Strs}
+  \cup {Case("HMSET_ITER", <<"h", f1, v1>>, <<>>, NoF, NoD, NoT, <<>>, <<"HMSET", "h", f1, v1>>) : f1 \in Strs, v1 \in Strs}
+  \cup {Case("XADD_ITER", <<"s", id, "f", v>>, <<>>, NoF, NoD, NoT, <<>>, <<"XADD", "s", id, "f", v>>) : id \in {"*", "1-1"}, v \in Strs}
   \cup {Case("GETRANGE", <<"k">>, <<a, b>>, NoF, NoD, NoT, <<>>, <<"GETRANGE", "k", a, b>>) : a \in Int64s, b \in SmallInts}
   \cup {Case("LRANGE", <<"k">>, <<a, b>>, NoF, NoD, NoT, <<>>, <<"LRANGE", "k", a, b>>) : a \in SmallInts, b \in Int64s}
   \cup {Case("SETRANGE", <<"k", v>>, <<n>>, NoF, NoD, NoT, <<>>, <<"SETRANGE", "k", n, v>>) : v \in Strs, n \in SmallInts}
